@@ -100,3 +100,32 @@ package ingressanalyzer
 //@         (0 <= i && i <= rangeindex1 - 1 && svcKnown(ia, ns, svcList[i].serviceName) && 0 <= j && j < len(ia.servicesToPortsAndPeersMap[ns][svcList[i].serviceName].peers)) ==>
 //@         backendIncluded(res, ia.servicesToPortsAndPeersMap[ns][svcList[i].serviceName].peers[j], ia.servicesToPortsAndPeersMap[ns][svcList[i].serviceName].ports, svcList[i].servicePort)
 //@     invariant cur: forall j int :: {peersAndPorts.peers[j]} (0 <= j && j <= rangeindex2) ==> backendIncluded(res, peersAndPorts.peers[j], peersAndPorts.ports, svc.servicePort)
+
+// ---------------------------------------------------------------------------------------------
+// Which backends an Ingress object has (C10): the default backend and every path of every http rule contribute one entry
+// (name of the service, designated port by name or by number) - none is merged with or dropped for another
+// ---------------------------------------------------------------------------------------------
+
+//@ import netv1 "k8s.io/api/networking/v1"
+//@ fun infoFor(si serviceInfo, b *netv1.IngressServiceBackend) bool = si.serviceName == b.Name
+//@     && (if b.Port.Name != "" then si.servicePort.StrVal == b.Port.Name else (si.servicePort.IntVal == b.Port.Number && si.servicePort.StrVal == ""))
+//@ pred pathsListed(res []serviceInfo, ing *netv1.Ingress, nrules int) = forall r int, p int :: {ing.Spec.Rules[r].HTTP.Paths[p]}
+//@     (0 <= r && r < nrules && ing.Spec.Rules[r].HTTP != nil && 0 <= p && p < len(ing.Spec.Rules[r].HTTP.Paths) && ing.Spec.Rules[r].HTTP.Paths[p].Backend.Service != nil) ==>
+//@     (exists i int :: {res[i]} 0 <= i && i < len(res) && infoFor(res[i], ing.Spec.Rules[r].HTTP.Paths[p].Backend.Service))
+//@ pred defaultListed(res []serviceInfo, ing *netv1.Ingress) = (ing.Spec.DefaultBackend != nil && ing.Spec.DefaultBackend.Service != nil) ==>
+//@     (exists i int :: {res[i]} 0 <= i && i < len(res) && infoFor(res[i], ing.Spec.DefaultBackend.Service))
+
+//@ func (*IngressAnalyzer).getK8sIngressServices
+//@   requires ia != nil && ing != nil && caLoggerOK(ia.logger)
+//@   modifies *
+//@   ensures [C10] default: defaultListed(res, ing)
+//@   ensures [C10] paths: pathsListed(res, ing, len(ing.Spec.Rules))
+//@   loop 1:
+//@     invariant default: defaultListed(backendServices, ing)
+//@     invariant paths: pathsListed(backendServices, ing, rangeindex1 + 1)
+//@   loop 2:
+//@     invariant outer: 0 <= rangeindex1 && rangeindex1 < len(ing.Spec.Rules) && rule == ing.Spec.Rules[rangeindex1] && rule.HTTP != nil
+//@     invariant default: defaultListed(backendServices, ing)
+//@     invariant paths: pathsListed(backendServices, ing, rangeindex1)
+//@     invariant cur: forall p int :: {rule.HTTP.Paths[p]} (0 <= p && p <= rangeindex2 && rule.HTTP.Paths[p].Backend.Service != nil) ==>
+//@         (exists i int :: {backendServices[i]} 0 <= i && i < len(backendServices) && infoFor(backendServices[i], rule.HTTP.Paths[p].Backend.Service))
